@@ -290,9 +290,15 @@ class SymNum:
         p = self.e
         if not _has_div(p):
             p = z3.simplify(p, som=True, som_blowup=1000000)
+            if _ENGINE is not None and _ENGINE.concrete is None and p.get_id() != self.e.get_id():
+                # a tautology (simplify preserves equivalence) that lets side
+                # conditions about |p| use what the path condition says about
+                # the original term
+                _ENGINE.pc.append(p == self.e)
+                _ENGINE.solver.add(p == self.e)
         r = wrap(z3.If(p >= 0, p, -p))
         if _ENGINE is not None:
-            _ENGINE.abs_log.append((self, r))
+            _ENGINE.abs_log.append((self, r, _ENGINE.tagger() if _ENGINE.tagger else None))
         return r
 
     def __truediv__(self, o):
@@ -793,6 +799,7 @@ class Engine:
         self.sqrt_exact_max_size = 60
         self.sqrt_log: list = []
         self.abs_log: list = []
+        self.tagger = None
         self.stats = Stats()
         self.failures: list[Failure] = []
         self.inconclusives: list[str] = []
@@ -1073,8 +1080,10 @@ class Engine:
         and obliged to be non-negative."""
         self.flush_divisions()
         self._oblige('sqrt-argument-nonnegative', x.e >= 0, kind='div')
+        tag = self.tagger() if self.tagger else None
         for (arg, r) in self.sqrt_memo:
             if arg.get_id() == x.e.get_id():
+                self.sqrt_log.append((x, SymNum(r), tag))
                 return SymNum(r)
         # congruence: an argument provably equal to an earlier one gets the
         # same result symbol
@@ -1082,11 +1091,12 @@ class Engine:
             (n1, d1), (n2, d2) = clear_denominators(_toreal(arg)), clear_denominators(_toreal(x.e))
             res, _ = self._one_shot(self.pc + [n1 * d2 != n2 * d1], min(self.oblige_timeout_ms, 20000))
             if res == 'unsat':
+                self.sqrt_log.append((x, SymNum(r), tag))
                 return SymNum(r)
         r = z3.Real(self.autoname('sqrt'))
         self.symbols[str(r)] = r
         self.sqrt_memo.append((x.e, r))
-        self.sqrt_log.append((x, SymNum(r)))
+        self.sqrt_log.append((x, SymNum(r), self.tagger() if self.tagger else None))
         if dag_sizes([x.e])[x.e.get_id()] <= self.sqrt_exact_max_size:
             self._add(z3.And(r >= 0, r * r == _toreal(x.e)))
         else:
@@ -1252,12 +1262,22 @@ class Engine:
                 verdict = 'unsat'
             elif r == 'sat':
                 verdict, model = 'sat', m
+        if verdict is None and alt is None and kind != 'div':
+            r, m = self._one_shot(self.pc + [z3.Not(cond)], min(tmo, 4000))
+            if r == 'unsat':
+                verdict = 'unsat'
+            elif r == 'sat':
+                verdict, model = 'sat', m
         if verdict is None and alt is None and kind != 'div' and (
                 _has_div(cond) or any(_has_div(p) for p in self.pc[-6:])):
             # divisions as free reciprocals over pc and goal jointly: equal
             # rational terms become the same polynomial, so 'vg == 0 |- s == 0'
             # is settled by the normal form
             fs, hyps = recip_abstract(self.pc + [z3.Not(cond)])
+            try:
+                fs = [z3.simplify(f, som=True, som_blowup=100000) for f in fs]
+            except z3.Z3Exception:
+                pass
             r, m = self._one_shot(fs, min(tmo, 10000))
             if r == 'unsat':
                 verdict = 'unsat'
@@ -1272,6 +1292,8 @@ class Engine:
             m = self._substitution_search(cond)
             if m is not None:
                 verdict, model = 'sat', m
+        if _DEBUG:
+            print(f'[oblige {name} kind={kind} -> {verdict}]', flush=True)
         if verdict == 'unsat':
             self.stats.discharged += 1
             if len(self.stats.samples) < 6:
